@@ -374,3 +374,108 @@ def gen_c3_unit(ch, tag="m"):
         out.append("}")
         funcs.append((f"f{i}", nparams))
     return "\n".join(out) + "\n"
+
+
+def gen_bf(ch):
+    """Random brainfuck program with balanced brackets."""
+    out = []
+    depth = 0
+    for _ in range(5 + ch.draw(40, "bflen")):
+        k = ch.weighted([4, 4, 3, 3, 1, 1, 2, 2], "bfop")
+        if k == 6:
+            out.append("[")
+            depth += 1
+        elif k == 7:
+            if depth > 0:
+                out.append("]")
+                depth -= 1
+        else:
+            out.append("+-><.,"[k])
+    return "".join(out) + "]" * depth
+
+
+def gen_pascal(ch, tag="p"):
+    """Small Pascal program: globals, functions, while / if, arithmetic."""
+    nv = 2 + ch.draw(5, "pasnvars")
+    vars_ = [f"v{i}" for i in range(nv)]
+    out = [f"program prog{tag};", "var " + ", ".join(vars_) + ": integer;"]
+    funcs = []
+
+    def expr(names, depth):
+        if depth <= 0 or ch.chance(1, 3, "pasleaf"):
+            if names and ch.chance(2, 3, "pasvar"):
+                return ch.pick(names, "pasname")
+            return str(ch.draw(200, "pasconst"))
+        if funcs and ch.chance(1, 6, "pascall"):
+            f = ch.pick(funcs, "pasfn")
+            return f"{f}({expr(names, depth - 1)}, {expr(names, depth - 1)})"
+        op = ch.pick(["+", "-", "*", "+"], "pasop")
+        return f"({expr(names, depth - 1)} {op} {expr(names, depth - 1)})"
+
+    def stmts(names, depth, pad):
+        lines = []
+        for _ in range(1 + ch.draw(3, "pasnstmt")):
+            k = ch.weighted([5, 2, 2], "passtmt") if depth > 0 else 0
+            if k == 0:
+                lines.append(f"{pad}{ch.pick(names, 'pastgt')} := "
+                             f"{expr(names, 2)};")
+            elif k == 1:
+                lines.append(f"{pad}if {expr(names, 1)} "
+                             f"{ch.pick(['<', '>', '='], 'pascmp')} "
+                             f"{expr(names, 1)} then")
+                lines.append(f"{pad}begin")
+                lines += stmts(names, depth - 1, pad + "  ")
+                lines.append(f"{pad}end;")
+            else:
+                iv = ch.pick(names, "pasloop")
+                lines.append(f"{pad}{iv} := 0;")
+                lines.append(f"{pad}while {iv} < {1 + ch.draw(9, 'paslim')} do")
+                lines.append(f"{pad}begin")
+                body = [n for n in names if n != iv] or names
+                lines += stmts(body, depth - 1, pad + "  ")
+                lines.append(f"{pad}  {iv} := {iv} + 1;")
+                lines.append(f"{pad}end;")
+        return lines
+
+    for i in range(ch.draw(3, "pasnfun")):
+        name = f"fn{i}"
+        out.append(f"function {name}(a: integer; b: integer): integer;")
+        out.append("begin")
+        out.append(f"  {name} := {expr(['a', 'b'], 2)};")
+        out.append("end;")
+        funcs.append(name)
+    out.append("begin")
+    out += stmts(vars_, 2, "  ")
+    out.append("end.")
+    return "\n".join(out) + "\n"
+
+
+def gen_python(ch):
+    """Small typed Python functions (ppci's Python front-end)."""
+    out = []
+    funcs = []
+    for i in range(1 + ch.draw(3, "pynfun")):
+        name = f"pf{i}"
+        out.append(f"def {name}(x: int, y: int) -> int:")
+        names = ["x", "y"]
+        for j in range(1 + ch.draw(4, "pynloc")):
+            e = f"{ch.pick(names, 'pya')} {ch.pick(['+', '-', '*'], 'pyop')} " \
+                f"{ch.pick(names + [str(ch.draw(50, 'pyc'))], 'pyb')}"
+            out.append(f"    t{j} = {e}")
+            names.append(f"t{j}")
+        if ch.chance(1, 2, "pyloop"):
+            out.append("    i = 0")
+            out.append(f"    while i < {1 + ch.draw(9, 'pylim')}:")
+            out.append(f"        {names[-1]} = {names[-1]} + i * "
+                       f"{ch.pick(names, 'pyl')}")
+            out.append("        i = i + 1")
+        if funcs and ch.chance(1, 2, "pycall"):
+            out.append(f"    {names[-1]} = {names[-1]} + "
+                       f"{ch.pick(funcs, 'pyfn')}({names[0]}, 3)")
+        out.append(f"    if {ch.pick(names, 'pyc1')} > "
+                   f"{ch.draw(20, 'pyc2')}:")
+        out.append(f"        return {ch.pick(names, 'pyr1')}")
+        out.append("    return " + " + ".join(names))
+        out.append("")
+        funcs.append(name)
+    return "\n".join(out) + "\n"
